@@ -48,6 +48,7 @@ type Unit struct {
 	UsedContracts map[string]bool
 	Blocks      int
 	Instrs      int
+	Safety      bool // panic-freedom obligations were generated for this unit
 }
 
 type State struct {
@@ -138,6 +139,8 @@ type vcgen struct {
 	sharedCell map[ssa.Value]bool
 	sharedSince map[ssa.Value][]ssa.Instruction // the go statements after which a shared cell may change under our feet
 	rangeVis   map[ssa.Value]string // range iterator -> visited state var
+	curRange   *rangeState          // the map range whose Next was executed last
+	feOrd      int                  // ordinal of foreach call sites
 	rangeMap   map[ssa.Value]ssa.Value
 	embIDs     map[string]int
 	inputs     []string
